@@ -263,7 +263,26 @@ func peekRecord(args []string) error {
 		o := observe(pl)
 		enc.Encode(map[string]any{"ev": "reset", "toks": ks, "ret": 0, "a": 0, "b": 0, "m": "", "raw": o.raw, "peek": o.nxt, "cur": o.cur})
 		cps := make([]*lexer.Checkpoint, 2)
-		for step := 0; step < steps; step++ {
+		panicked := false
+		for step := 0; step < steps && !panicked; step++ {
+			// an operation that panics (reads outside the stream) is recorded as an event no specification step matches
+			func() {
+				defer func() {
+					if r := recover(); r != nil {
+						panicked = true
+						enc.Encode(map[string]any{"ev": "PANIC", "ret": 0, "a": 0, "b": 0, "m": fmt.Sprint(r), "raw": 0, "peek": 0, "cur": 0})
+					}
+				}()
+				recordStep(rng, pl, toks, cps, ev)
+			}()
+		}
+	}
+	return nil
+}
+
+func recordStep(rng *rand.Rand, pl *lexer.PeekingLexer, toks []lexer.Token, cps []*lexer.Checkpoint, ev func(name string, ret, a, bb int, m string)) {
+	{
+		{
 			switch rng.Intn(9) {
 			case 0, 1:
 				ev("Next", tokIdx(pl.Next()), 0, 0, "")
@@ -308,5 +327,4 @@ func peekRecord(args []string) error {
 			}
 		}
 	}
-	return nil
 }
